@@ -287,11 +287,15 @@ example : parseFwd "/%61pp/x" (some "/app") = some "/x" := by decide  -- prefix 
 
 /-- The target's final status and body length reach the client unchanged whether or not an informational
     response (`103 Early Hints`) preceded them, with response buffering on or off, whatever the service's
-    error-page and timeout settings; the access log records the same status and length. -/
-theorem C13_status_unchanged (s : Faults.Setup) (st n : Nat) :
+    error-page and timeout settings (the one exception is C14's: a buffered response over the service's
+    size limit); the access log records the same status and length. -/
+theorem C13_status_unchanged (s : Faults.Setup) (st n : Nat) (hl : Faults.overLimit s n = false) :
     (Faults.outcome s (.ok st n)).client = .response st n ∧
     (Faults.outcome s (.early st n)).client = .response st n ∧
     (Faults.outcome s (.early st n)).logStatus = st ∧ (Faults.outcome s (.early st n)).logBytes = some n := by
-  simp [Faults.outcome]
+  simp [Faults.outcome, hl]
+
+example : Faults.overLimit { bufResp := true, pages := false, timeout := 5, maxResp := 50000 } 49999 = false := by decide
+example : Faults.overLimit { bufResp := false, pages := false, timeout := 5, maxResp := 50000 } 70000 = false := by decide
 
 end KamalProxy.C13
